@@ -29,7 +29,7 @@ SameObs(o, d) == /\ o.k = d.k
                  /\ (d.k = "rst" => o.code = d.code)
 ReqStep(e) ==
   LET h == H(e)
-      d == ServerAdmit(h)
+      d == ServerAdmit(h, maxAdm)    \* Level I prediction: what the code does (its own high-water mark)
       started == e.entered # <<>>
       \* the code compares with ITS high-water mark (ids that passed its check), the property with every id used
       reusedAfterStreamError == AttrLegal(h) /\ h.sid % 2 = 1 /\ h.sid <= hiSent /\ h.sid > maxAdm
